@@ -833,6 +833,35 @@ impl<'tcx> Ctx<'tcx> {
             let mut v: Vec<(&str, String)> = Vec::new();
             v.push(("path", js(&path_of(tcx, did))));
             v.push(("ty", js(&ty_str(ty))));
+            // initializer tables (`const ID: AlgId = AlgId::Signing(AlgId::_from_signer::<CS>())`): the enum
+            // variants built and the fn items called by the initializer of a non-scalar constant
+            if !(ty.is_integral() || ty.is_bool()) && tcx.is_mir_available(did) {
+                let body = tcx.mir_for_ctfe(did);
+                let mut items: Vec<String> = Vec::new();
+                for bb in body.basic_blocks.iter() {
+                    for st in &bb.statements {
+                        if let StatementKind::Assign(b) = &st.kind {
+                            let (_, rv) = &**b;
+                            if let Rvalue::Aggregate(k, _) = rv {
+                                if let AggregateKind::Adt(adt, vidx, _, _, _) = &**k {
+                                    let def = tcx.adt_def(*adt);
+                                    items.push(js(&format!("variant:{}", def.variant(*vidx).name)));
+                                }
+                            }
+                        }
+                    }
+                    if let Some(t) = &bb.terminator {
+                        if let TerminatorKind::Call { func, .. } = &t.kind {
+                            if let Operand::Constant(c) = func {
+                                if let ty::FnDef(fd, _) = c.const_.ty().kind() {
+                                    items.push(js(&format!("fn:{}", path_of(tcx, *fd))));
+                                }
+                            }
+                        }
+                    }
+                }
+                v.push(("mentions", jarr(items)));
+            }
             if ty.is_integral() || ty.is_bool() {
                 let r = std::panic::catch_unwind(std::panic::AssertUnwindSafe(|| {
                     tcx.const_eval_poly(did)
